@@ -64,7 +64,10 @@ def run(ctx):
         "evaluations": len(cases),
         "distinct_nontrivial": c.get("distinct_nontrivial", 0),
         "rule": "programs of 1-4 functions over emit/raise/panic/try-catch/defer-closure/call/return/loop/break/continue/"
-                "recover, nesting depth <= 6 (quick) / 12 (thorough), fixed corpus of nasty shapes first; each program "
+                "recover, nesting depth <= 6 (quick) / 12 (thorough) plus up to 7 levels of the biased shape family "
+                "(iteration left by break/continue from a catch block or try body 1-3 try levels inside the loop, the "
+                "loop 1-4 try/loop levels inside an outer try whose body raises again afterwards; counted by "
+                "ref_catch_left_by_break_continue / ref_catch_after_catch_left), fixed corpus of nasty shapes first; each program "
                 "gives 3 protocol lines (vm, spec, skel); non-trivial = the reference run used at least two of: a catch, "
                 "a recover, an error/panic crossing a deferred call or abandoning defers, call depth > 2",
         "samples": st.get("samples", []),
